@@ -143,6 +143,32 @@ def run(tier):
 
 def replay(data):
     common.build(["hookfast"])
+    sig = data.get("signature", "")
+    if sig.startswith("GrowsWithIterations") or sig.startswith("UnreachableRetained"):
+        # census replays: the same program with no, n and 2n iterations
+        out = {}
+        for mult in (0, 1, 2):
+            case = mk_case("replay%d" % mult, [snip(data["source"]), ("stats",)], {"gc": "default", "trace": 1, "dropcheck": 1},
+                           globals_=[("N", f64_bits(data["N"] * mult))])
+            res = common.run_batch("hookfast", [case], shards=1, timeout=900)[0]
+            out[mult] = {k: v[0] for k, v in res["steps"][1].get("by_type", {}).items() if k not in EXCLUDED} if "steps" in res else None
+            print("N x %d:" % mult, out[mult])
+        bad = False
+        if None in out.values():
+            bad = True
+        elif sig.startswith("GrowsWithIterations"):
+            bad = any(out[1].get(k, 0) != out[2].get(k, 0) and not (k == "ObjRange" and abs(out[1].get(k, 0) - out[2].get(k, 0)) <= 8)
+                      for k in set(out[1]) | set(out[2]))
+        else:
+            body = data.get("body") or []
+            for spec in churn.VANISH.get(body[0] if body else "", []):
+                k, _, plus = spec.partition("+")
+                allowed = min(data.get("keep", 0), data["N"]) if plus == "keep" else 0
+                bad = bad or out[1].get(k, 0) != out[0].get(k, 0) + allowed
+        if bad:
+            print("VIOLATION property=C16 replay=<given>")
+            return 1
+        return 0
     case = mk_case("replay", [snip(data["source"]), ("stats",)], {"gc": "default", "trace": 1, "dropcheck": 1},
                    globals_=[("N", f64_bits(data["N"]))])
     res = common.run_batch("hookfast", [case], shards=1, timeout=600)[0]
